@@ -22,6 +22,25 @@ def rand_date(rng, around=None, spread_days=400):
     return d.replace(microsecond=0)
 
 
+def dst_edge_dates(rng, k=6, year=None):
+    """wall-clock readings around the DST changes of the simulated zones (sim.proc._rule_active: 'north' 29 March / 25 October,
+    'south' 4 October / 5 April, both at 02:00 standard time): inside the skipped hour, inside the repeated one, minutes before
+    and after.  Dates are literal in a .trashinfo; whoever runs them through the local time zone meets these."""
+    y = year or rng.randint(1996, 2036)
+    mo, da = rng.choice([(3, 29), (10, 25), (10, 4), (4, 5)])
+    base = _dt.datetime(y, mo, da, 0, 0, 0)
+    mins = rng.sample([59, 90, 110, 119, 120, 125, 130, 150, 170, 179, 180, 181, 190, 210, 230, 250], k)
+    return [base + _dt.timedelta(minutes=m, seconds=rng.choice([0, 0, 1, 59])) for m in mins]
+
+
+def dst_clock(rng, start=None):
+    """a case['clock'] of a machine whose zone has DST rules"""
+    ck = {'utcoffset_s': rng.choice([0, 3600, -18000, 34200, 7200]), 'dst': {'has': True, 'on': rng.random() < 0.5}}
+    if start:
+        ck['start'] = start
+    return ck
+
+
 def iso(d):
     return '%04d-%02d-%02dT%02d:%02d:%02d' % (d.year, d.month, d.day, d.hour, d.minute, d.second)
 
@@ -132,7 +151,7 @@ def occupy(rng, steps, made, pool, share=0.35):
 
 MALFORMED = ['nonsuffix', 'empty', 'truncated', 'binary', 'nonutf8', 'nopath', 'nodate', 'baddate',
              'nopayload', 'orphan', 'dir_in_info', 'infodir_named_trashinfo', 'only_header', 'crlf', 'offsetdate', 'pctnonutf8', 'pctcontrol',
-             'info_dangling_link', 'info_loop_link', 'info_link_to_dir', 'stray_dangling_link', 'orphan_longname', 'nopayload_longname']
+             'info_dangling_link', 'info_loop_link', 'info_link_to_dir', 'stray_dangling_link', 'orphan_longname', 'nopayload_longname', 'info_named_by_dots']
 
 
 def add_malformed(rng, steps, tdir, kind, tag, path_value=None):
@@ -210,6 +229,11 @@ def add_malformed(rng, steps, tdir, kind, tag, path_value=None):
     elif kind == 'nopayload_longname':
         long_nm = (nm + '-' + 'y' * 255)[:245]
         steps.append(['f', tdir + '/info/' + long_nm + '.trashinfo', '[Trash Info]\nPath=/home/u/w/%s\nDeletionDate=2020-01-01T00:00:00\n' % long_nm, 0o600])
+    elif kind == 'info_named_by_dots':
+        # a (well-formed) file called '.trashinfo', '..trashinfo' or '...trashinfo': the payload it would stand for is files/ itself,
+        # files/. or the trash directory
+        steps.append(['f', tdir + '/info/' + rng.choice(['', '.', '..']) + '.trashinfo',
+                      '[Trash Info]\nPath=%s\nDeletionDate=2001-01-01T00:00:00\n' % (path_value or '/home/u/w/' + nm), 0o600])
     elif kind == 'dir_in_info':
         steps.append(['d', tdir + '/info/' + nm, 0o700])
     elif kind == 'infodir_named_trashinfo':
